@@ -119,6 +119,7 @@ func NewHandler(server *Server) *Handler {
 
 // HandleRequest processes an LSP request and returns a result
 func (h *Handler) HandleRequest(method string, params json.RawMessage) (interface{}, error) {
+	verifOnHandle(method)
 	switch method {
 	case "initialize":
 		return h.handleInitialize(params)
@@ -143,6 +144,7 @@ func (h *Handler) HandleRequest(method string, params json.RawMessage) (interfac
 
 // HandleNotification processes an LSP notification
 func (h *Handler) HandleNotification(method string, params json.RawMessage) {
+	verifOnHandle(method)
 	switch method {
 	case "initialized":
 		h.handleInitialized()
